@@ -169,8 +169,9 @@ def run(fb, rep, tier):
         arms = [set(x.i for x in case_arm_nodes(g, cs)) for cs in g.nodes if cs.k == 'CaseStmt']
         for n in asg:
             anc = list(g.ancestors(n))
-            # (1) the arm of the parameter switch first hands a scaled LP back unscaled
-            ok_ = any(u.l < n.l and any(u.i in a_ and n.i in a_ for a_ in arms) for u in uns)
+            # (1) the arm of the parameter switch that re-targets the pointer also hands a scaled LP back unscaled (before the setter returns:
+            #     no query can run in between; the unscaling itself goes through the scaler attached to the LP, not through _scaler)
+            ok_ = any(any(u.i in a_ and n.i in a_ for a_ in arms) for u in uns)
             # (2) the pointer is re-derived from the stored parameter: the same selection as before
             ok_ = ok_ or any(a.k == 'SwitchStmt' and a.kid('cond') is not None and re.search(r'intParam\((SoPlexBase<\w+>::)?SCALER\)', render(a.kid('cond'))) for a in anc)
             # (3) dropped only when the LP is not scaled
